@@ -23,7 +23,7 @@ EXPLANATION = (
     'only the key it was asked for, FIFO queues; R6 CRTP tunnel: uplink data = (header,) + payload bytes on function CRTP to STM32, downlink '
     'CRTPPacket(data[0], data[1:]) from function CRTP; the TCP and serial drivers agree.')
 ASSUMPTIONS = ['socket.recv(n) returns at most n bytes', 'queue.Queue is FIFO']
-FLOORS = {'R1': 10, 'R2': 2, 'R3': 5, 'R4': 3, 'R5': 5, 'R6': 8}
+FLOORS = {'R1': 10, 'R2': 2, 'R3': 5, 'R4': 3, 'R5': 6, 'R6': 8}
 
 
 def check(ctx):
@@ -137,6 +137,27 @@ def check(ctx):
     g4 = cfg_of(rcv)
     mkn = g4.nodes_of(mk[0]) if mk else []
     ctx.inst('R5', rcv, 'queue-created-once', bool(mkn) and fact_key('%s.value in self._rxQueues' % fp, False) in g4.fact_keys_at(mkn[0]), 'a queue is created only if none exists for the function')
+    def fresh_q(v):
+        return isinstance(v, ast.Call) and norm(v.func) in ('queue.Queue', 'Queue') and not v.args
+    shared, unknown = [], []
+    for f_ in R.methods.values():
+        for st_ in walk_own(f_.node):
+            if not isinstance(st_, ast.Assign):
+                continue
+            for t_ in st_.targets:
+                v = st_.value
+                if norm(t_) == 'self._rxQueues':
+                    if (isinstance(v, ast.Dict) and all(fresh_q(x) for x in v.values)) or norm(v) == 'dict()' or (isinstance(v, ast.DictComp) and fresh_q(v.value)):
+                        continue
+                    if isinstance(v, ast.Call) and norm(v.func) in ('dict.fromkeys', '{}.fromkeys') and len(v.args) == 2 and norm(v.args[1]) != 'None':
+                        shared.append('%s:%d %s' % (f_.name, st_.lineno, norm(v)[:70]))
+                    else:
+                        unknown.append(norm(st_)[:80])
+                elif isinstance(t_, ast.Subscript) and norm(t_.value) == 'self._rxQueues' and not fresh_q(v):
+                    shared.append('%s:%d %s' % (f_.name, st_.lineno, norm(st_)[:70]))
+    ctx.need(not unknown, 'CPXRouter: unrecognised construction of the queue table: %s' % unknown)
+    ctx.inst('R5', R.method('__init__'), 'one-queue-object-per-function', not shared,
+             'every entry of the per-function table must be its own queue.Queue(); one object stored under several keys hands packets of one function to receivers of another: %s' % (shared or 'none'))
     tr = [t for t in walk_own(run.node) if isinstance(t, ast.Try)]
     ok = len(tr) == 1 and any(puts and puts[0][1] is c for s in tr[0].body for c in walk_own(s)) and not any(isinstance(x, (ast.Break, ast.Return, ast.Raise)) for h in tr[0].handlers for s in h.body for x in walk_own(s))
     ctx.inst('R5', run, 'router-survives-errors', ok, 'a failing read does not end the router loop')
@@ -165,6 +186,8 @@ def check(ctx):
 
 
 VARIANTS = [
+    M('R5', CPX, "        self._rxQueues = {}\n", "        self._rxQueues = dict.fromkeys([f.value for f in CPXFunction], queue.Queue())\n", 'one queue shared by all functions'),
+    B(CPX, "        self._rxQueues = {}\n", "        self._rxQueues = {f.value: queue.Queue() for f in CPXFunction}\n", 'queues pre-created, one each'),
     M('R1', CPX, "        targetsAndFlags = ((self.source.value & 0x7) << 3) | (self.destination.value & 0x7)", "        targetsAndFlags = ((self.source.value & 0x7) << 4) | (self.destination.value & 0x7)", 'source shift'),
     M('R1', CPX, "        self.lastPacket = targetsAndFlags & 0x40 != 0", "        self.lastPacket = targetsAndFlags & 0x80 != 0", 'last-packet bit'),
     M('R1', CPX, "        self.function = CPXFunction(functionAndVersion & 0x3F)", "        self.function = CPXFunction(functionAndVersion & 0x1F)", 'function mask'),
